@@ -19,6 +19,7 @@ import (
 	"strings"
 	"sync"
 	"sync/atomic"
+	"time"
 
 	"connectrpc.com/connect"
 	"connectrpc.com/vanguard"
@@ -113,6 +114,7 @@ type Backend struct {
 	Override     []KV     `json:"override,omitempty"`    // replaces / removes response headers after building
 	WriteChunk   int      `json:"write_chunk,omitempty"` // cap on every Write once the splits are used up
 	ExplicitHead bool     `json:"explicit_head,omitempty"`
+	IgnoreReadErr bool    `json:"ignore_read_err,omitempty"` // answer per script even if reading the request failed
 }
 
 type Scenario struct {
@@ -531,7 +533,11 @@ type Outcome struct {
 	HandlerCtx   context.Context
 	Body         *scriptBody
 	Snapshot     *reqSnapshot // request as given to ServeHTTP
+	Hang         bool         // ServeHTTP did not return within the watchdog
 }
+
+// watchdog is three orders of magnitude above the normal latency of a case (DESIGN 2.1).
+const watchdog = 30 * time.Second
 
 const scriptedPanic = "verifbench: scripted backend panic"
 
@@ -558,6 +564,23 @@ func (br *benchRun) serviceHandler() http.Handler {
 		}
 		if br.script != nil {
 			br.script(w, r, view)
+			return
+		}
+		undecodable := false
+		for _, m := range view.Msgs {
+			if m == nil {
+				undecodable = true
+			}
+		}
+		if (view.ReadErr != "" || undecodable) && !br.sc.Backend.IgnoreReadErr {
+			// a compliant server fails the RPC when it cannot read the request
+			failed := *br.sc
+			failed.Backend.Kind = "error"
+			failed.Backend.Msgs = nil
+			failed.Backend.Fault = nil
+			failed.Backend.CodeRaw = ""
+			failed.Backend.Err = &ErrSpec{Code: 13, Message: "handler could not read the request"}
+			respond(&failed, view, w)
 			return
 		}
 		respond(br.sc, view, w)
@@ -636,7 +659,9 @@ func runScenarioOn(sc *Scenario, shared *sharedTranscoder) *Outcome {
 	out.Snapshot = snapshotRequest(req)
 	rec := newRecorder(&done)
 	out.Rec = rec
-	func() {
+	finished := make(chan struct{})
+	go func() {
+		defer close(finished)
 		defer func() {
 			if p := recover(); p != nil {
 				stack := string(debug.Stack())
@@ -650,6 +675,15 @@ func runScenarioOn(sc *Scenario, shared *sharedTranscoder) *Outcome {
 		}()
 		handler.ServeHTTP(rec, req)
 	}()
+	select {
+	case <-finished:
+	case <-time.After(watchdog):
+		// ServeHTTP did not return although every peer action completes immediately in this
+		// driver. The goroutine is abandoned; nothing further of this run is inspected.
+		out.Hang = true
+		out.Client = &ClientView{Form: sc.Client.Form, Headers: http.Header{}, Trailers: http.Header{}}
+		return out
+	}
 	atomic.StoreInt32(&done, 1)
 	out.Trailers = rec.Trailers()
 	out.Client = parseClientResponse(sc, enc, rec, out.Trailers)
